@@ -755,6 +755,14 @@ func c17Cases() []c17case {
 			dig(d, "paths")["/pk/{id}"] = gen.S{"parameters": gen.Arr(gen.S{"name": "id", "in": "path", "required": true, "type": "integer", "minimum": 1.0, "description": "the id"}, gen.S{"name": "X-T", "in": "header", "type": "string", "enum": gen.Arr("a"), "required": true}, gen.S{"$ref": "#/parameters/SharedQ"}),
 				"get": gen.S{"operationId": "pk", "parameters": gen.Arr(gen.S{"name": "own", "in": "query", "type": "boolean", "default": true}), "responses": okResp()}}
 		}},
+		{"path-level-body-parameter", func(d gen.S) {
+			dig(d, "paths")["/pb"] = gen.S{"parameters": gen.Arr(gen.S{"name": "body", "in": "body", "required": true, "schema": gen.S{"$ref": "#/definitions/Pet"}}),
+				"post": gen.S{"operationId": "pbPost", "responses": okResp()}, "put": gen.S{"operationId": "pbPut", "responses": okResp()}}
+		}},
+		{"path-level-form-parameter", func(d gen.S) {
+			dig(d, "paths")["/pf"] = gen.S{"parameters": gen.Arr(gen.S{"name": "a", "in": "formData", "type": "string", "maxLength": 4.0, "required": true}),
+				"post": gen.S{"operationId": "pfPost", "consumes": gen.Arr("application/x-www-form-urlencoded"), "parameters": gen.Arr(gen.S{"name": "b", "in": "formData", "type": "integer"}), "responses": okResp()}}
+		}},
 		{"operation-meta", func(d gen.S) {
 			dig(d, "paths")["/om"] = gen.S{"get": gen.S{"operationId": "om", "summary": "sum", "description": "desc", "deprecated": true, "tags": gen.Arr("t1", "t2"), "responses": okResp()}}
 		}},
@@ -1307,7 +1315,7 @@ func runC17(c *core.Ctx) {
 		var names []string
 		for j := 0; j < k; j++ {
 			cs := cases[r.Intn(len(cases))]
-			for strings.HasPrefix(cs.field, "same-key-shared-form-parameter") || cs.field == "no-host" {
+			for strings.HasPrefix(cs.field, "same-key-shared-form-parameter") || cs.field == "no-host" || cs.field == "path-level-body-parameter" || cs.field == "path-level-form-parameter" {
 				// recorded findings are reported on their own document; a combination holding one would only repeat it
 				cs = cases[r.Intn(len(cases))]
 			}
